@@ -202,9 +202,11 @@ let handle_cmd (w : string list) =
              (int_of_z p.root_dir_sectors) (int_of_z p.root_dir_sector) (int_of_z p.first_data_sector) (int_of_z (Gen.get_total_sectors h)))
   | ["f.hdr_roundtrip"; hx] -> Printf.printf "ok %s\n" (hex_of_bytes (ser_hdr (hdr_of_hex hx)))
   | ["f.mkfs_geom"; t; size; ss; nf] ->
-      let ((((((((p, num_sec), spc), rootent), rsvd), f16), f32), t16), t32) = Gen.mkfs_geometry pf_init (zi t) (zi size) (zi ss) (zi nf) in
+      (match Gen.mkfs_geometry pf_init (zi t) (zi size) (zi ss) (zi nf) with
+       | Err e -> fail e
+       | Ok ((((((((p, num_sec), spc), rootent), rsvd), f16), f32), t16), t32) ->
       Printf.printf "ok num_sec=%d spc=%d rootent=%d rsvd=%d fatsz=%d rds=%d f16=%d f32=%d t16=%d t32=%d\n" (int_of_z num_sec) (int_of_z spc)
-        (int_of_z rootent) (int_of_z rsvd) (int_of_z p._fat_size) (int_of_z p.root_dir_sectors) (int_of_z f16) (int_of_z f32) (int_of_z t16) (int_of_z t32)
+        (int_of_z rootent) (int_of_z rsvd) (int_of_z p._fat_size) (int_of_z p.root_dir_sectors) (int_of_z f16) (int_of_z f32) (int_of_z t16) (int_of_z t32))
   | ["f.seek_cursor"; o; fs; b] -> let ((bp, ci), co) = Gen.seek_cursor (zi o) (zi fs) (zi b) in Printf.printf "ok %d %d %d\n" (int_of_z bp) (int_of_z ci) (int_of_z co)
   | ["f.make_lfn"; u; sfn] ->
       let sl = make_lfn (units_of_hex u) (bytes_of_hex sfn) in
